@@ -399,6 +399,8 @@ func (ro *Roles) keepsWriting(f *ssa.Function) bool {
 // VarlinkDispatch>), the description table (map[string]string) and the registration-order list ([]string).
 type svcFields struct {
 	Listener, Mutex, Running, Interfaces, Descriptions, Names string
+	// RunningVal: when the lifecycle is an enumeration member instead of a flag, the constant that means "serving"
+	RunningVal string
 }
 
 // svcF is set by DiscoverRoles.
@@ -450,9 +452,33 @@ func discoverServiceFields(p *Prog, ro *Roles) svcFields {
 			}
 		}
 	}
+	if len(bools) == 0 {
+		// no flag: the lifecycle is an enumeration member (`state serviceState`) into which a serving function stores
+		// a non-zero constant ("serving"); being in that state is what `running` means
+		for _, sv := range ro.Serving {
+			for _, b := range sv.Blocks {
+				for _, in := range b.Instrs {
+					st, ok := in.(*ssa.Store)
+					if !ok {
+						continue
+					}
+					k, ok := st.Val.(*ssa.Const)
+					fa, ok2 := st.Addr.(*ssa.FieldAddr)
+					if !ok || !ok2 || !isServiceState(fa.X.Type()) || k.Value == nil {
+						continue
+					}
+					if bt, isB := k.Type().Underlying().(*types.Basic); isB && bt.Info()&types.IsInteger != 0 && constTerm(k) != "const:0" {
+						if _, isNamedT := k.Type().(*types.Named); isNamedT {
+							f.Running, f.RunningVal = fieldName(fa.X, fa.Field), constTerm(k)
+						}
+					}
+				}
+			}
+		}
+	}
 	if len(bools) == 1 {
 		f.Running = bools[0]
-	} else {
+	} else if f.Running == "" {
 		// the bool member a serving function stores true into
 		for _, sv := range ro.Serving {
 			for _, b := range sv.Blocks {
